@@ -18,6 +18,13 @@ Tol == 20    \* micro-units: rounding of two fixed-point conversions plus slack
 
 AbsI(x) == IF x < 0 THEN -x ELSE x
 
+(* A query may have several start states and several goal states (xstarts / xgoals are the cells *)
+(* of the additional ones; out-of-bounds starts are not listed: they are never valid).          *)
+StartCells(r) == {r.start} \cup (IF "xstarts" \in DOMAIN r THEN {r.xstarts[i] : i \in 1..Len(r.xstarts)} ELSE {})
+GoalCells(r) == {r.goal} \cup (IF "xgoals" \in DOMAIN r THEN {r.xgoals[i] : i \in 1..Len(r.xgoals)} ELSE {})
+ValidStartCells(r) == StartCells(r) \ r.obst
+ReachAny(r) == UNION {Reach(r.W, r.H, r.obst, c) : c \in StartCells(r)}
+
 (* Every clause has a name so that a rejected report says which clause failed. *)
 SolClauses == {"nonempty", "startsAtStart", "inBounds", "verticesValid", "invalidRun",
                "pairsRecheck", "cellWalk", "exactEndsInGoal", "approxDifference", "exactEndsInGoalCell"}
@@ -35,8 +42,8 @@ SolClause(c, r, s) ==
       (* graph that starts in the start cell                                              *)
       [] c = "cellWalk" -> (~s.cellsTruncated =>
                                /\ IsFreeWalk(r.W, r.H, r.obst, s.cells)
-                               /\ Len(s.cells) >= 1 /\ s.cells[1] = r.start
-                               /\ s.cells[Len(s.cells)] \in Reach(r.W, r.H, r.obst, r.start))
+                               /\ Len(s.cells) >= 1 /\ s.cells[1] \in ValidStartCells(r)
+                               /\ s.cells[Len(s.cells)] \in Reach(r.W, r.H, r.obst, s.cells[1]))
       [] c = "exactEndsInGoal" -> (~s.approx => s.endInGoal)
       (* the reported difference describes the last state: planners report either the distance to *)
       (* the goal state / centre or the distance to (a state of) the goal region, so any value    *)
@@ -47,7 +54,7 @@ SolClause(c, r, s) ==
                  /\ s.diff >= (IF s.endDist > r.thrMicro THEN s.endDist - r.thrMicro ELSE 0) - Tol)
       [] c = "exactEndsInGoalCell" ->
              (~s.approx /\ r.thr = "tiny" /\ ~s.cellsTruncated /\ Len(s.cells) >= 1
-                  => s.cells[Len(s.cells)] = r.goal)
+                  => s.cells[Len(s.cells)] \in GoalCells(r))
 
 FailedSol(r, s) == {c \in SolClauses : ~SolClause(c, r, s)}
 SolutionOK(r, s) == FailedSol(r, s) = {}
@@ -67,13 +74,13 @@ CallClause(c, r) ==
       [] c = "exactTopNotApprox" -> (r.status = "EXACT" /\ Len(r.sols) >= 1 => ~r.sols[1].approx)
       [] c = "approxTopIsApprox" -> (r.status = "APPROXIMATE" /\ Len(r.sols) >= 1 => r.sols[1].approx)
       (* model-determined facts *)
-      [] c = "invalidStartOnlyIfInvalid" -> (r.status = "INVALID_START" => r.start \in r.obst)
-      [] c = "invalidGoalOnlyIfInvalid" -> (r.status = "INVALID_GOAL" => r.goal \in r.obst)
+      [] c = "invalidStartOnlyIfInvalid" -> (r.status = "INVALID_START" => ValidStartCells(r) = {})
+      [] c = "invalidGoalOnlyIfInvalid" -> (r.status = "INVALID_GOAL" => GoalCells(r) \subseteq r.obst)
       [] c = "exactOnlyIfReachable" ->
              (* with a tiny threshold the path ends on the goal state itself (a wider goal region *)
              (* around a jittered goal may reach into neighbouring cells: covered by cellWalk)    *)
-             (r.status = "EXACT" /\ r.thr = "tiny" => r.goal \in Reach(r.W, r.H, r.obst, r.start))
-      [] c = "noSolutionFromInvalidStart" -> (r.start \in r.obst => r.status \notin SolutionStatuses)
+             (r.status = "EXACT" /\ r.thr = "tiny" => GoalCells(r) \cap ReachAny(r) # {})
+      [] c = "noSolutionFromInvalidStart" -> (ValidStartCells(r) = {} => r.status \notin SolutionStatuses)
 
 FailedFirstSolve(r) ==
     {c \in CallClauses : ~CallClause(c, r)}
